@@ -95,19 +95,75 @@ theorem scanRest_length (s : List Char) (h : scanOk s = true) : (scanRest s).len
     · left; exact a
   omega
 
+theorem infWord_suffix (s r : List Char) (h : infWord s = some r) : r <:+ s ∧ r.length < s.length := by
+  unfold infWord at h
+  split at h
+  · rename_i h8
+    cases h
+    have : (s.take 8).length = 8 := by
+      have := congrArg List.length h8
+      simpa using this
+    have hl : 8 ≤ s.length := by
+      rw [List.length_take] at this; omega
+    exact ⟨List.drop_suffix 8 s, by rw [List.length_drop]; omega⟩
+  · split at h
+    · rename_i h3
+      cases h
+      have : (s.take 3).length = 3 := by
+        have := congrArg List.length h3
+        simpa using this
+      have hl : 3 ≤ s.length := by
+        rw [List.length_take] at this; omega
+      exact ⟨List.drop_suffix 3 s, by rw [List.length_drop]; omega⟩
+    · cases h
+
+/-- an infinity literal starts with the letter i -/
+theorem infWord_none (c : Char) (cs : List Char) (h : lower c ≠ 'i') : infWord (c :: cs) = none := by
+  unfold infWord
+  rw [if_neg, if_neg]
+  · intro hc
+    simp only [List.take_succ_cons, List.map_cons] at hc
+    have := List.head_eq_of_cons_eq hc
+    exact h this
+  · intro hc
+    simp only [List.take_succ_cons, List.map_cons] at hc
+    have := List.head_eq_of_cons_eq hc
+    exact h this
+
+theorem infScan_suffix (s : List Char) (v : Rat) (rest : List Char) (h : infScan s = some (v, rest)) :
+    rest <:+ s ∧ rest.length < s.length := by
+  unfold infScan at h
+  cases hw : infWord (numStart s) with
+  | none => rw [hw] at h; cases h
+  | some r =>
+    rw [hw] at h
+    cases h
+    obtain ⟨a, b⟩ := infWord_suffix _ _ hw
+    have hn := numStart_suffix s
+    exact ⟨a.trans hn, by have := hn.length_le; omega⟩
+
 theorem cdouble_suffix (s : List Char) (v : Rat) (rest : List Char) (h : cdouble s = .ok v rest) :
     rest <:+ s ∧ rest.length < s.length := by
   unfold cdouble at h
   split at h
   · cases h
-  · unfold scanDouble at h
-    by_cases hk : scanOk s = true
-    · rw [if_pos hk] at h
+  · cases hi : infScan s with
+    | some p =>
+      obtain ⟨v', r'⟩ := p
+      rw [hi] at h
       cases h
-      exact ⟨scanRest_suffix s, scanRest_length s hk⟩
-    · rw [if_neg hk] at h
+      exact infScan_suffix s v rest hi
+    | none =>
+      rw [hi] at h
       simp only [] at h
-      split at h <;> cases h
+      unfold scanDouble at h
+      by_cases hk : scanOk s = true
+      · rw [if_pos hk] at h
+        cases h
+        exact ⟨scanRest_suffix s, scanRest_length s hk⟩
+      · rw [if_neg hk] at h
+        simp only [] at h
+        split at h <;> cases h
 
 theorem uintRest_suffix (s : List Char) : uintRest s <:+ s := by
   unfold uintRest
@@ -569,7 +625,12 @@ theorem facCount_suffix (s : List Char) (n : Nat) (t : List Char) (h : facCount 
   cases hc : cuint32 s with
   | err e => rw [hc] at h; cases h
   | zero => rw [hc] at h; cases h; exact List.suffix_refl _
-  | ok x r => rw [hc] at h; cases h; exact cuint32_suffix s _ _ hc
+  | ok x r =>
+    rw [hc] at h
+    simp only [] at h
+    split at h
+    · cases h
+    · cases h; exact cuint32_suffix s _ _ hc
 
 theorem facBase_suffix (s : List Char) (v : Rat) (t : List Char) (h : facBase s = some (v, t)) : t <:+ s := by
   unfold facBase at h
@@ -770,7 +831,8 @@ theorem letter_not_space (c : Char) (h : isAlpha c = true) : isSpace c = false :
 
 /-- a list that starts with something that cannot start a number is refused -/
 theorem mkValues_refused (c : Char) (cs : List Char)
-    (h1 : isSpace c = false) (h2 : isDigit c = false) (h3 : c ≠ '+') (h4 : c ≠ '-') (h5 : c ≠ '.') :
+    (h1 : isSpace c = false) (h2 : isDigit c = false) (h3 : c ≠ '+') (h4 : c ≠ '-') (h5 : c ≠ '.')
+    (h6 : lower c ≠ 'i') :
     mkValues (c :: cs) = none := by
   have hd : dropSpace (c :: cs) = c :: cs := dropSpace_id c cs h1
   have hn : numStart (c :: cs) = c :: cs := by
@@ -781,8 +843,11 @@ theorem mkValues_refused (c : Char) (cs : List Char)
     unfold scanOk
     rw [hn, spanP_eq]
     simp [List.takeWhile, List.dropWhile, h2, fracDigits, h5]
+  have hi : infScan (c :: cs) = none := by
+    unfold infScan
+    rw [hn, infWord_none c cs h6]
   unfold mkValues cdouble scanDouble
-  simp [hk, h1]
+  simp [hk, h1, hi]
 
 /-- the keyword test of `mpt_iterator_create` in terms of the spec's keyword table -/
 theorem keyword_none (name : List Char) (h : IterSpec.keywordKind name = none) :
@@ -911,6 +976,16 @@ theorem create_refuses_malformed (s : List Char) (h : IterSpec.certainlyMalforme
       split
       · rfl
       · try simp only [hname, ↓reduceIte]
-        exact mkValues_refused c cs hsp hdg hplus hminus hdot
+        exact mkValues_refused c cs hsp hdg hplus hminus hdot (by
+          intro hc
+          have : isAlpha c = true := by
+            unfold lower at hc
+            unfold isAlpha
+            split at hc
+            · rename_i hu
+              simp only [Bool.or_eq_true, Bool.and_eq_true, decide_eq_true_eq]
+              left; exact hu
+            · subst hc; decide
+          rw [this] at hal'; cases hal')
 
 end Mpt.Iter
